@@ -197,6 +197,8 @@ def configs(tier):
         add(2, 2, 0, 1, 2, 1, automatic=True)
         add(2, 2, 0, 1, 2, 1, single=True)
         add(2, 2, 0, 1, 2, 1, automatic=True, single=True)
+        add(3, 2, 0, 1, 2, 1, automatic=True)          # automatic mode in three dimensions
+        add(3, 2, 0, 2, 3, 1, automatic=True, towards=T3)
         # graded refinement towards two points: few events per state, so coarsening values >= 2 and several scheme extensions
         for version in (0, 1, 2):
             add(2, 2, version, 1, 5, 1, towards=T2)
@@ -215,7 +217,18 @@ def configs(tier):
         for version in (0, 1, 2):
             add(2, 3, version, 1, 2, 1, lmin=2)
         add(2, 4, 0, 1, 1, 1, lmin=3)
+        # runs that start with lmax == lmin (every area begins at the coarsest possible local scheme)
+        for version in (0, 1, 2):
+            add(2, 1, version, 1, 4, 1, lmin=1, towards=T2)
+        add(2, 1, 0, 1, 2, 1, lmin=1)
+        add(2, 2, 0, 1, 3, 1, lmin=2, towards=T2)
+        add(3, 1, 0, 1, 2, 1, lmin=1, towards=T3)
     else:
+        for version in (0, 1, 2):
+            add(2, 1, version, 1, 6, 1, lmin=1, towards=T2)
+            add(2, 1, version, 2, 3, 1, lmin=1)
+            add(2, 2, version, 1, 4, 1, lmin=2, towards=T2)
+        add(3, 1, 0, 1, 3, 1, lmin=1, towards=T3)
         for version in (0, 1, 2):
             add(2, 3, version, 1, 3, 1, lmin=2)
             add(2, 4, version, 1, 2, 1, lmin=2)
